@@ -24,6 +24,7 @@ RULE = (
     "for 4.5*eps (more than 4 eps) on a Point/Vector coordinate: !=; a probe repeated after the same eps was restored "
     "gives identical answers; rules degenerate (Line / Segment / HalfLine through two points eps/1000 apart must be rejected under the current eps), dupvertex (a polygon vertex repeated eps/1000 away is merged), bigpoly (12-14 unit squares eps/1000 apart are equal and contain each other's vertices), cycle (hash under A, switch to B, edit in place by move or item assignment, back to A: equal to and hashing like a fresh object); an import-defaults case run in a fresh interpreter before any setter; objects kept alive across configuration changes (keep / recheck rules; each kept object also has twins translated by 1e-8 and 1e-9 created at the same time, which must equal and hash like it once eps/1000 covers that offset) must behave "
     "like freshly constructed identical objects under the current eps. non-trivial = probe under a non-default configuration; distinct = distinct (history, probe)."
+    ' Rule keep_coarsen_recheck: keep an object, coarsen eps to 1e-5 / 1e-6, re-examine that object at once; eps/1000 twins lie on both sides (+-).'
 )
 ASSUMPTIONS = [
     "every other check runs in its own process; this machine restores the defaults at the start of every history and the engine resets them after the stratum",
